@@ -175,6 +175,9 @@ def scenario_t(position, duration, after):
       test.measurements.m = 1
       test.logger.info('timed phase done')
       log.append(('timed-end', time.monotonic()))
+      runtime.vlog('timed-end')
+      if after == 'raise':
+        raise ValueError('timed body failed (in time)')
       return h.PhaseResult.FAIL_AND_CONTINUE if after == 'fail' else None
 
     def other(test):
@@ -192,7 +195,34 @@ def scenario_t(position, duration, after):
     def first(test):
       log.append(('first', time.monotonic()))
 
-    if position == 'plain':
+    if position == 'monitored':
+      # the timed-out body ignores the termination request, and so the monitor thread it started keeps sampling while
+      # the next phase -- which declares a measurement of the same name -- runs
+      from openhtf.core import monitors  # pylint: disable=g-import-not-at-top
+      from openhtf.util import threads as th  # pylint: disable=g-import-not-at-top
+
+      def mon_fn(test):
+        return 7
+
+      @h.PhaseOptions(timeout_s=TIMEOUT)
+      @monitors.monitors('mon', mon_fn, poll_interval_ms=3000)
+      def timed_mon(test):   # pylint: disable=unused-variable
+        log.append(('timed-start', time.monotonic()))
+        while True:
+          try:
+            time.sleep(50.0)
+          except th.ThreadTerminationError:
+            pass
+
+      timed_mon.options.name = 'timed'
+
+      @h.measures(h.Measurement('mon').with_dimensions('ms'))
+      def other_mon(test):
+        log.append(('other', time.monotonic()))
+        time.sleep(8.0)
+
+      nodes = [first, h.PhaseGroup(main=[timed_mon], teardown=[other_mon])]     # (teardown still runs after the timeout)
+    elif position == 'plain':
       nodes = [first, timed, other]
     elif position == 'main':
       nodes = [first, h.PhaseGroup(main=[timed, other], teardown=[td])]
@@ -239,8 +269,19 @@ def execute_t(cfg, choices):
   sched, value = explore.run_under_scheduler(
       scenario_t(position, duration, after), choices,
       focus_targets=[phase_executor.PhaseExecutorThread.join_or_die, threads.KillableThread.run],
-      focus_files=('openhtf/util/threads.py', 'openhtf/core/phase_executor.py'), max_steps=40000, horizon=1000000.0 + 5000,
-      line_watch=('run', 'join_or_die'))
+      # (for a body that ends by raising, the locks of the logging handlers are scheduling points too: the exception
+      # is reported through the record logger while the executor may already be looking at the deadline)
+      focus_files=('openhtf/util/threads.py', 'openhtf/core/phase_executor.py') + (('logging/__init__.py', 'openhtf/util/logs.py') if after == 'raise' else ()),
+      max_steps=40000, horizon=1000000.0 + 5000,
+      line_watch=('run', 'join_or_die'), op_watch=('(timed)',))
+  # first synchronisation operation of the timed phase's thread after its body ended (there it can be held up
+  # arbitrarily long by other threads, so whatever it has to hand over must have been handed over before)
+  seen_end, t_sync = False, None
+  for e in sched.events:
+    if e[0] == 'timed-end':
+      seen_end = True
+    elif seen_end and e[0] == 'op' and t_sync is None and ('acquire' in e[2] or '.wait' in e[2] or e[2].startswith(('thread.join', 'sleep'))):
+      t_sync = e[3]        # (only operations that can block: a release / set / notify cannot be held up)
   result_lines = [e for e in sched.events if e[0] == 'line' and e[2] == 'run' and 'timed' in e[1]]
   jod = [e for e in sched.events if e[0] == 'line' and e[2] == 'join_or_die']
   first_line = min([e[3] for e in jod] or [0])
@@ -248,6 +289,7 @@ def execute_t(cfg, choices):
   result = {'value': value if isinstance(value, dict) else repr(value), 'failure': repr(sched.failure) if sched.failure else None}
   result['timed_run_lines'] = [(e[3], e[4]) for e in result_lines]
   result['join_calls'] = join_calls
+  result['t_sync_after_body'] = t_sync
   result['timer_deviations'] = sum(1 for p in sched.points if p['kinds'][p['choice']] == 'timer' and 'run' in p['kinds'])
   if isinstance(value, dict):
     result['outcome_key'] = (value['outcome'], tuple((p[0], p[1], p[2]) for p in value['phases']))
@@ -288,9 +330,14 @@ def check_t(cfg):
       if trec[2] == 'TIMEOUT' or v['outcome'] == 'TIMEOUT':
         out.append(('T:%s:false-timeout' % tag, 'phase thread had its result %.3fs after the executor started waiting (< timeout %.1fs) '
                     'but was reported TIMEOUT: %r' % (t_ret - t_wait, T, v['phases']), rep))
-      exp = 'FAIL' if after == 'fail' else 'PASS'
+      exp = {'fail': 'FAIL', 'raise': 'ERROR'}.get(after, 'PASS')
       if trec[1] != exp:
         out.append(('T:%s:own-result-lost' % tag, 'body returned in time with result for outcome %s but record says %s' % (exp, trec[1]), rep))
+    t_sync = ex.result.get('t_sync_after_body')
+    if ended is not None and t_sync is not None and t_sync - t_wait < T - 1e-6 and (trec[2] == 'TIMEOUT' or v['outcome'] == 'TIMEOUT'):
+      out.append(('T:%s:result-withheld' % tag, 'the body ended and its thread reached a synchronisation operation %.3fs after the '
+                  'executor started waiting (< timeout %.1fs) without having handed over the result: reported TIMEOUT %r'
+                  % (t_sync - t_wait, T, v['phases']), rep))
     if duration == 'never' or (isinstance(duration, float) and duration > T + 4.0):
       if v['outcome'] != 'TIMEOUT':
         out.append(('T:%s:no-timeout' % tag, 'body ran past its deadline but outcome is %s' % v['outcome'], rep))
@@ -310,8 +357,8 @@ def check_t(cfg):
                     % (nxt - t0, T, allowance), rep))
       # nothing the abandoned body does later is attributed to another phase
       for p in v['phases']:
-        if p[0] != 'timed' and p[3].get('m') not in (None, 'UNSET'):
-          out.append(('T:%s:zombie-attribution' % tag, 'phase %s shows measurement of the abandoned body' % p[0], rep))
+        if p[0] != 'timed' and (p[3].get('m') not in (None, 'UNSET') or p[3].get('mon') not in (None, 'UNSET')):
+          out.append(('T:%s:zombie-attribution' % tag, 'phase %s shows measurements made on behalf of the abandoned body: %r' % (p[0], p[3]), rep))
     return out
   return check
 
@@ -323,7 +370,8 @@ def t_configs(tier):
   cfgs = []
   for pos in ('plain', 'main', 'teardown'):
     cfgs += [(pos, 9.5, 'none'), (pos, 'never', 'none')]
-  cfgs += [('plain', 9.999, 'fail'), ('plain', 25.0, 'measure'), ('main', 25.0, 'measure')]
+  cfgs += [('plain', 9.999, 'fail'), ('plain', 25.0, 'measure'), ('main', 25.0, 'measure'), ('plain', 9.5, 'raise'), ('main', 9.5, 'raise'),
+           ('monitored', 'never', 'none')]
   if tier == 'thorough':
     cfgs += [('plain', 10.5, 'measure'), ('teardown', 25.0, 'fail'), ('main', 9.999, 'measure')]
   return cfgs
